@@ -13,15 +13,18 @@ class SharedMutex : public Mutex<Impl> {
   using Base::Base;
 
   void lock_shared() {
+    YACLIB_VERIF_SYNC(kLockShared);
     YACLIB_INJECT_FAULT(Impl::lock_shared());
   }
 
   bool try_lock_shared() {
+    YACLIB_VERIF_SYNC(kTryLockShared);
     YACLIB_INJECT_FAULT(auto r = Impl::try_lock_shared());
     return r;
   }
 
   void unlock_shared() {
+    YACLIB_VERIF_SYNC(kUnlockShared);
     YACLIB_INJECT_FAULT(Impl::unlock_shared());
   }
 };
